@@ -28,6 +28,13 @@ MISSED_FIRST = {
     "c04-failed-group-leaves-tmp-batch": "T1-group-scratch-reset",
     "c01-get-range-upper-bound-by-smallest": "T8-range-fold",
     "c10-approximate-offset-unpins-table-early": "T10-pinning/table-used-while-pinned",
+    "c15-bad-record-keeps-fragment-state": "T2-reassembly-state/bad-record-resets-always",
+    "c16-filter-offset-without-trailer": "T6-filter-offset",
+    "c17-rename-reports-dirsync-failure": "T1-current-commit-point",
+    "c20-lock-table-check-and-put-split": "T3d-lockfile-section",
+    "c20-destroy-lost-guard-wrong-dir": "T5-destroy-scope/lost-dir-is-not-a-database",
+    "c19-repair-skips-logs-below-manifest": "T1-repair-logs",
+    "c07-add-iterators-skips-deepest-level": "T2-all-levels",
     "c09-open-does-not-schedule-compaction": "T11-work-scheduled",
     "c07-dbiter-skip-bytewise-equal": "T12-dbiter-composition (db_iter.c tables were added after this seed arrived)",
 }
